@@ -5,6 +5,7 @@ Model: DTML/VarPipe.lean.
 import DTML.VarPipe
 import DTML.GenVar
 import DTML.Lemmas.VarInit
+import DTML.Lemmas.Fetch
 set_option linter.unusedVariables false
 namespace DTML.Props.C15
 open DTML.Quote DTML.VarPipe
@@ -377,5 +378,56 @@ theorem finding_C15_double_unquote :
     x.urlUnquote (x.urlQuote "%41".toList) = "%41".toList ∧
     applyMods x (applied { written := ["url_unquote"] }) (x.urlQuote "%41".toList) false = ("A".toList, false) := by
   decide
+
+/-! #### the fetch part of `Var.render` (regenerated from the source on every run: harness/trans_fetch.py) -/
+
+/-- **`missing` and `null` of the model are `missing` and `null` of the source**: `Var.render` from its top to the `fmt=`
+stage, translated statement by statement (`if val is None: if name in md: val = md[name] else: 'missing' in args ->
+return args['missing'] / raise KeyError(name)`, then `'null' in args and not val and val != 0 -> return args['null']`),
+run on a name that is undefined (`none`) or has a value, is `render` for a tag that compiles to `Var.render`
+(`simpleKind sp = 0`) - the function `missing_replaces_undefined`, `null_replaces_null` and `pipeline_stages` are about.
+(`url` is no attribute of the model's tag: `url := none`.) -/
+theorem gen_var_fetch_is_model (x : Ext) (sp : Spec) (v : Option Val) (absUrl : Val → R Val) (h : simpleKind sp = 0) :
+    GenFetch.fetchPipeGen (.name v) ⟨sp.missing, sp.null, none⟩ absUrl (Lemmas.Fetch.afterNullPipe x sp) =
+      render x sp v := by
+  unfold GenFetch.fetchPipeGen render
+  cases v with
+  | none => cases hm : sp.missing <;> rfl
+  | some v =>
+    simp only [h, ne_eq, not_true_eq_false, if_false]
+    exact Lemmas.Fetch.fetchNullPipe_is_renderFull x sp _ rfl v
+
+/-- an expression: its exception leaves the method, its value goes through the null test (no `missing`) -/
+theorem gen_var_fetch_expr_is_model (x : Ext) (sp : Spec) (r : R Val) (absUrl : Val → R Val) :
+    GenFetch.fetchPipeGen (.expr r) ⟨sp.missing, sp.null, none⟩ absUrl (Lemmas.Fetch.afterNullPipe x sp) =
+      (match r with | .ok v => renderFull x sp v | .error e => some (.error e)) := by
+  unfold GenFetch.fetchPipeGen
+  cases r with
+  | error e => rfl
+  | ok v => exact Lemmas.Fetch.fetchNullPipe_is_renderFull x sp _ rfl v
+
+/-- the hypothesis is not vacuous, and it holds whenever `missing` or `null` is written -/
+example : simpleKind { written := [], missing := some [] } = 0 := by decide
+
+theorem full_form_of_missing_or_null (sp : Spec) (h : (sp.missing.isSome || sp.null.isSome) = true) :
+    simpleKind sp = 0 := by
+  have h1 : sp.written.contains "html_quote" = true → 1 ≤ sp.written.eraseDups.length := by
+    intro hw
+    cases hl : sp.written.eraseDups with
+    | nil =>
+      have : "html_quote" ∈ sp.written.eraseDups := by
+        rw [List.mem_eraseDups]; simpa using hw
+      rw [hl] at this; cases this
+    | cons a t => simp
+  have hge : 1 ≤ (if sp.missing.isSome = true then 1 else 0) + (if sp.null.isSome = true then 1 else 0) := by
+    cases hm : sp.missing.isSome <;> cases hn : sp.null.isSome <;> simp_all
+  unfold simpleKind
+  generalize (if sp.missing.isSome = true then 1 else 0) = a at hge ⊢
+  generalize (if sp.null.isSome = true then 1 else 0) = b at hge ⊢
+  generalize (if sp.fmt.isSome = true then 1 else 0) = c
+  generalize (if sp.size.isSome = true then 1 else 0) = d
+  generalize (if sp.etc.isSome = true then 1 else 0) = e
+  simp only []
+  rw [if_neg (by rintro ⟨_, h2⟩; omega), if_neg (by rintro ⟨_, h2, hw⟩; have := h1 hw; omega)]
 
 end DTML.Props.C15
